@@ -32,12 +32,15 @@ def main():
         props = sys.argv[sys.argv.index("--props") + 1].split(",")
     thorough = "--thorough" in sys.argv
     skip_confirm = "--skip-confirm" in sys.argv
+    base = "HEAD"
+    if "--base" in sys.argv:
+        base = sys.argv[sys.argv.index("--base") + 1]
     wt = "/tmp/seval-%s" % name
     sh("git -C /repo worktree remove --force %s" % wt)
-    rc, out = sh("git -C /repo worktree add -q --detach %s HEAD" % wt)
+    rc, out = sh("git -C /repo worktree add -q --detach %s %s" % (wt, base))
     if rc:
         sys.exit("cannot create worktree: " + out)
-    meta = {"property": pid, "name": name, "base_commit": sh("git -C /repo rev-parse --short HEAD")[1].strip(), "ran": []}
+    meta = {"property": pid, "name": name, "base_commit": sh("git -C /repo rev-parse --short %s" % base)[1].strip(), "ran": []}
     try:
         notes = open(os.path.join(src, "notes.md")).read() if os.path.exists(os.path.join(src, "notes.md")) else ""
         meta["needs_to_manifest"] = notes[:3000]
